@@ -53,7 +53,7 @@ Definition mismatch (k : case) : bool :=
        this server created, or one the server has lost since (cache loss)
    3 = a session offered in a connection that failed is offered again by the next connection to that server
    4 = a new session reuses an identifier
-   5 = not resumed and the handshake failed although the same pair succeeds without a session (no transparent fallback)
+   5 = the handshake failed although the same pair succeeds without a session (no transparent fallback)
    6 = the client offered an identifier that no successful handshake of this history created
        (a session kept from a handshake that ended in an error)
    7 = resumed a session whose suite the client no longer offers or the server no longer enables
@@ -76,7 +76,7 @@ Fixpoint scan (last_failed : list (N * N)) (seen_new : list N) (made : list (N *
                             | None => false end then 7
       else if existsb (fun p => (fst p =? j) && (snd p =? ob_offered o)) last_failed && negb (ob_offered o =? 0) then 3
       else if negb (ob_new o =? 0) && memN (ob_new o) seen_new then 4
-      else if negb (ob_res_c o) && negb (ob_ok_c o) && (match honest_run c s with Some _ => true | None => false end) then 5
+      else if negb (ob_ok_c o) && (match honest_run c s with Some _ => true | None => false end) then 5
       else
         let lf := if negb (ob_ok_c o) && negb (ob_offered o =? 0)
                   then (j, ob_offered o) :: last_failed
